@@ -29,6 +29,8 @@ import   "github.com/pbenner/autodiff/algorithm/matrixInverse"
 // Sherif, Nagwa. "On the computation of a matrix inverse square root."
 // Computing 46.4 (1991): 295-305.
 
+const maxIterations = 200
+
 func mSqrtInv(matrix Matrix) (Matrix, error) {
   n, _ := matrix.Dims()
   c  := NewScalar(matrix.ElementType(), 2.0)
@@ -46,7 +48,10 @@ func mSqrtInv(matrix Matrix) (Matrix, error) {
   }
   X1 := NullDenseMatrix(matrix.ElementType(), n, n)
   X1.MmulS(S1.MdotM(X0, t), c)
-  for t1.Mnorm(S1.MsubM(X0, X1)).GetFloat64() > 1e-8 {
+  for i := 0; t1.Mnorm(S1.MsubM(X0, X1)).GetFloat64() > 1e-8; i++ {
+    if i >= maxIterations {
+      return nil, errors.New("MSqrtInv(): Algorithm did not converge!")
+    }
     X0, X1 = X1, X0
     t, err := matrixInverse.Run(S1.MaddM(I, S2.MdotM(A, S1.MdotM(X0, X0))))
     if err != nil {
